@@ -429,8 +429,10 @@ PointOf(r, d, cs) == IF ~Supported(r, d) THEN r.F.ins[cs.pi] ELSE PtsOf(DirOf(r,
 \* a set of tuples in one call: bounds of the count
 SetLo(r, d, S) == Cardinality({cs \in S : Counted(Outcomes(r, d, cs.cls, cs.M)) = "yes"})
 SetHi(r, d, S) == Cardinality({cs \in S : Counted(Outcomes(r, d, cs.cls, cs.M)) # "no"})
-DSetLo(r, d, S) == Cardinality({cs \in S : Counted(DOutcomes(r, d, cs.cls, cs.pi, cs.M)) = "yes"})
-DSetHi(r, d, S) == Cardinality({cs \in S : Counted(DOutcomes(r, d, cs.cls, cs.pi, cs.M)) # "no"})
+\* with the deviation switches DV (a set of names) on
+OutcomesOn(DV, r, d, cs) == IF Deviation(r, d, cs.cls, cs.pi, cs.M) \in DV THEN DOutcomes(r, d, cs.cls, cs.pi, cs.M) ELSE Outcomes(r, d, cs.cls, cs.M)
+DSetLo(DV, r, d, S) == Cardinality({cs \in S : Counted(OutcomesOn(DV, r, d, cs)) = "yes"})
+DSetHi(DV, r, d, S) == Cardinality({cs \in S : Counted(OutcomesOn(DV, r, d, cs)) # "no"})
 SetDevs(r, d, S) == {Deviation(r, d, cs.cls, cs.pi, cs.M) : cs \in S} \ {""}
 
 (***************************************************************************)
@@ -486,10 +488,11 @@ StepDeviation(rid, sd, dr, cls, pi, a) ==
     ELSE ""
 
 \* one executed step on one abstract tuple: [cnt: yes | no | either | zero, a: the abstract tuple after the step,
-\* dev: the deviation that was applied (only with dv = TRUE)]
+\* dev: the deviation that was applied (one of the switches dv that are on)]
 StepOn(rid, sd, dr, supported, underflow, cls, pi, a, dv) ==
     LET dirty == (Known(a) \cup Unk(a)) \cap dr.rd # {}
-        dev == IF dv /\ supported /\ dr.stk = "" THEN StepDeviation(rid, sd, dr, cls, pi, a) ELSE ""
+        dv0 == IF supported /\ dr.stk = "" THEN StepDeviation(rid, sd, dr, cls, pi, a) ELSE ""
+        dev == IF dv0 \in dv THEN dv0 ELSE ""        \* dv: the set of deviation switches that are on
         done == [el |-> [e \in E |-> IF e \in dr.wr THEN "val" ELSE a.el[e]], sn |-> Persist(dr, a)]
     IN
     IF ~supported THEN [cnt |-> "zero", a |-> a, dev |-> ""]
@@ -552,23 +555,26 @@ RunFrom(P, d, m, k, a, dv) ==
              r == StepOn(Rows[P[ex[k]].r].id, StepDir(P, d, ex[k]), StepRec(P, d, ex[k]), StepSupported(P, d, ex[k]),
                          Underflows(P, d, k), cls, (IF k = HeadPos(P, d) THEN m.pi ELSE 0), a, dv)
          IN <<r>> \o RunFrom(P, d, m, k + 1, r.a, dv)
-\* dv = FALSE: the reference; dv = TRUE: with the deviation switches on
+\* dv = {}: the reference; otherwise the set of deviation switches that are on
+AllDevs == {"DEV_cart_nan_epoch_uncounted", "DEV_cart_inv_axis_uncounted", "DEV_geodesic_reversible_inv_uncounted",
+            "DEV_gridshift_inv_outside_unchanged", "DEV_deflection_null_ignored", "DEV_laea_equatorial_inverse_rejects",
+            "DEV_laea_polar_inverse_no_disc"}
 PipeRunD(P, d, m, dv) == RunFrom(P, d, m, 1, Initial(m), dv)
-PipeRun(P, d, m) == PipeRunD(P, d, m, FALSE)
+PipeRun(P, d, m) == PipeRunD(P, d, m, {})
 FinalD(P, d, m, dv) == LET run == PipeRunD(P, d, m, dv) IN IF Len(run) = 0 THEN Initial(m) ELSE run[Len(run)].a
-Final(P, d, m) == FinalD(P, d, m, FALSE)
-PipeDevs(P, d, MS) == UNION {{PipeRunD(P, d, m, TRUE)[k].dev : k \in 1..Len(Exec(P, d))} : m \in MS} \ {""}
+Final(P, d, m) == FinalD(P, d, m, {})
+PipeDevs(P, d, MS) == UNION {{PipeRunD(P, d, m, AllDevs)[k].dev : k \in 1..Len(Exec(P, d))} : m \in MS} \ {""}
 
 \* bounds of the count of executed step k over a set of members, and of the pipeline
 StepLoD(P, d, MS, k, dv) == Cardinality({m \in MS : PipeRunD(P, d, m, dv)[k].cnt = "yes"})
 StepHiD(P, d, MS, k, dv) == Cardinality({m \in MS : PipeRunD(P, d, m, dv)[k].cnt \in {"yes", "either"}})
-StepLo(P, d, MS, k) == StepLoD(P, d, MS, k, FALSE)
-StepHi(P, d, MS, k) == StepHiD(P, d, MS, k, FALSE)
+StepLo(P, d, MS, k) == StepLoD(P, d, MS, k, {})
+StepHi(P, d, MS, k) == StepHiD(P, d, MS, k, {})
 MinOver(f, n, dflt) == IF n = 0 THEN dflt ELSE CHOOSE v \in {f[k] : k \in 1..n} : \A k \in 1..n : v <= f[k]
 PipeLoD(P, d, MS, dv) == LET n == Len(Exec(P, d)) IN MinOver([k \in 1..n |-> StepLoD(P, d, MS, k, dv)], n, Cardinality(MS))
 PipeHiD(P, d, MS, dv) == LET n == Len(Exec(P, d)) IN MinOver([k \in 1..n |-> StepHiD(P, d, MS, k, dv)], n, Cardinality(MS))
-PipeLo(P, d, MS) == PipeLoD(P, d, MS, FALSE)
-PipeHi(P, d, MS) == PipeHiD(P, d, MS, FALSE)
+PipeLo(P, d, MS) == PipeLoD(P, d, MS, {})
+PipeHi(P, d, MS) == PipeHiD(P, d, MS, {})
 
 \* every later step lets a NaN through
 RECURSIVE LaterKeep(_, _, _)
